@@ -15,6 +15,15 @@ var (
 	ErrAtoInfTimeline = errors.New("infinite availabilityTimeOffset for SegmentTimeline")
 )
 
+// errPeriodDuration: the configured number of periods per hour does not fit the segment duration of the asset.
+type errPeriodDuration struct {
+	periodDurS, segmentDurMS int
+}
+
+func (e errPeriodDuration) Error() string {
+	return fmt.Sprintf("period duration %ds not a multiple of segment duration %dms", e.periodDurS, e.segmentDurMS)
+}
+
 type errTooEarly struct {
 	deltaMS int
 }
